@@ -1,7 +1,7 @@
 /-
   C05 — text codings invert on their repertoire and refuse what they cannot represent.
-  (partial: Windows-1252 and GB18030 are golang.org/x/text tables, covered by exhaustive per-scalar
-  execution in the harness, not by the kernel.)
+  (partial: GB18030 is a golang.org/x/text table, covered by exhaustive per-scalar execution in the
+  harness, not by the kernel; Windows-1252 is modelled by its code-page table.)
 -/
 import SmsVerif.Model.Text
 import SmsVerif.Props.C08
@@ -53,6 +53,124 @@ theorem encode_refuses (c : Coding) (pre post : List Nat) (s : Nat) (h : c.code 
   | cons x xs ih =>
     simp only [List.cons_append, encodeAll, ih]
     cases c.code x <;> simp
+
+/-! ### Windows-1252 (`datacoding.Latin1`) -/
+
+theorem lookupFrom_spec (t : List Nat) (s i j : Nat) (h : lookupFrom t s i = some j) :
+    i ≤ j ∧ t[j - i]? = some s := by
+  induction t generalizing i with
+  | nil => simp [lookupFrom] at h
+  | cons x xs ih =>
+    simp only [lookupFrom] at h
+    split at h
+    · simp at h; subst h; simp [*]
+    · obtain ⟨h1, h2⟩ := ih (i + 1) h
+      refine ⟨by omega, ?_⟩
+      have : j - i = (j - (i + 1)) + 1 := by omega
+      rw [this]; simpa using h2
+
+theorem lookupFrom_none (t : List Nat) (s i : Nat) (h : lookupFrom t s i = none) : s ∉ t := by
+  induction t generalizing i with
+  | nil => simp
+  | cons x xs ih =>
+    simp only [lookupFrom] at h
+    split at h
+    · simp at h
+    · simp only [List.mem_cons, not_or]
+      exact ⟨fun e => by simp_all, ih (i + 1) h⟩
+
+/-- every Windows-1252 code is one octet, and reading it back gives the scalar -/
+theorem win1252_step_code (s : Nat) (u rest : List Nat) (hc : win1252.code s = some u) :
+    win1252.step (u ++ rest) = some (s, rest) := by
+  simp only [win1252] at hc ⊢
+  split at hc
+  · rename_i h
+    simp at hc; subst hc
+    have : s < 256 := by omega
+    have hd : win1252Dec s = s := by
+      unfold win1252Dec
+      rcases h with h | h
+      · simp [h]
+      · simp [h.1]
+    simp [this, hd]
+  · rename_i h
+    split at hc
+    · simp at hc
+    simp only [Option.map_eq_some_iff] at hc
+    obtain ⟨i, hi, rfl⟩ := hc
+    obtain ⟨_, hget⟩ := lookupFrom_spec _ _ _ _ hi
+    have hlt : i < 32 := by
+      have := (List.getElem?_eq_some_iff.mp hget).1
+      simpa [win1252Hi] using this
+    have hd : win1252Dec (0x80 + i) = s := by
+      unfold win1252Dec
+      have h1 : ¬ (0x80 + i < 0x80 ∨ 0xA0 ≤ 0x80 + i) := by omega
+      simp only [h1, if_false]
+      have : 0x80 + i - 0x80 = i := by omega
+      rw [this]
+      simp only [Nat.sub_zero] at hget
+      simp [List.getD, hget]
+    have : 0x80 + i < 256 := by omega
+    simp [this, hd]
+
+/-- **latin1_roundtrip** : every text the Windows-1252 encoder accepts decodes to itself -/
+theorem C05_latin1_roundtrip (text out : List Nat) (h : encodeAll win1252 text = some out) :
+    decodeAll win1252 (text.length + 1) out = some text ∧ out.length = text.length := by
+  refine ⟨string_roundtrip win1252 win1252_step_code ?_ text out h _ (by omega), ?_⟩
+  · intro s u hc
+    simp only [win1252] at hc
+    split at hc
+    · simp at hc; subst hc; simp
+    · split at hc
+      · simp at hc
+      · simp only [Option.map_eq_some_iff] at hc
+        obtain ⟨i, _, rfl⟩ := hc; simp
+  · induction text generalizing out with
+    | nil => simp [encodeAll] at h; subst h; rfl
+    | cons s rest ih =>
+      simp only [encodeAll] at h
+      cases hc : win1252.code s with
+      | none => simp [hc] at h
+      | some u =>
+        simp only [hc, Option.map_eq_some_iff] at h
+        obtain ⟨r, hr, rfl⟩ := h
+        have hu : u.length = 1 := by
+          simp only [win1252] at hc
+          split at hc
+          · simp at hc; subst hc; rfl
+          · split at hc
+            · simp at hc
+            · simp only [Option.map_eq_some_iff] at hc
+              obtain ⟨i, _, rfl⟩ := hc; rfl
+        simp [ih r hr, hu]; omega
+
+/-- **latin1_refuses** : the repertoire is exactly U+0000..U+007F, U+00A0..U+00FF and the 27 defined
+    table entries; anything else (U+0080, U+0081, U+0100, U+FFFD, a CJK ideograph, an emoji …) makes
+    the encoding fail -/
+theorem C05_latin1_refuses (pre post : List Nat) (s : Nat)
+    (h1 : ¬ (s < 0x80 ∨ (0xA0 ≤ s ∧ s < 0x100))) (h2 : s ∉ win1252Hi ∨ s = 0xFFFD) :
+    encodeAll win1252 (pre ++ s :: post) = none := by
+  apply encode_refuses
+  simp only [win1252, h1, if_false]
+  split
+  · rfl
+  · rename_i hne
+    rcases h2 with h2 | h2
+    · simp only [Option.map_eq_none_iff]
+      cases hl : lookupFrom win1252Hi s 0 with
+      | none => rfl
+      | some j => exact absurd (List.mem_of_getElem? (lookupFrom_spec _ _ _ _ hl).2) h2
+    · exact absurd h2 hne
+
+/-- the table has no duplicates and does not overlap the identity ranges: decoding is injective -/
+theorem C05_latin1_table_injective :
+    (win1252Hi.filter (· ≠ 0xFFFD)).Nodup ∧ (win1252Hi.filter (· ≠ 0xFFFD)).length = 27 ∧ win1252Hi.length = 32 ∧
+      ∀ c ∈ win1252Hi, ¬ (c < 0x80 ∨ (0xA0 ≤ c ∧ c < 0x100)) := by
+  decide
+
+example : encodeAll win1252 [0x61, 0x20AC, 0xE9, 0x2122] = some [0x61, 0x80, 0xE9, 0x99] := by decide
+example : encodeAll win1252 [0x61, 0x100] = none := by decide
+example : encodeAll win1252 [0x80] = none ∧ encodeAll win1252 [0x81] = none ∧ encodeAll win1252 [0xFFFD] = none := by decide
 
 /-! ### ASCII -/
 
@@ -201,6 +319,9 @@ open SmsVerif.C05
 #print axioms C05_ascii_refuses
 #print axioms C05_utf16_roundtrip
 #print axioms C05_utf16_refuses
+#print axioms C05_latin1_roundtrip
+#print axioms C05_latin1_refuses
+#print axioms C05_latin1_table_injective
 #print axioms C05_gsm7_roundtrip
 #print axioms C05_gsm7_refuses
 #print axioms C05_gsm7_packed_roundtrip
